@@ -307,6 +307,7 @@ pub fn by_family(fam: &str, seed: u64) -> Scenario {
         "inlineA" => inline_a(seed),
         "wuBurstBs" => wu_burst_bs(seed),
         "mutateB" => mutate_b(seed),
+        "rstRaceBc" => rst_race_bc(seed),
         _ => mix_a(seed, false),
     }
 }
@@ -1622,5 +1623,53 @@ pub fn mutate_b(seed: u64) -> Scenario {
     s.aims = vec!["C08".into()];
     s.peer_cfg.mutate = Some((seed, rng.gen_range(24..600), pick(&mut rng, &[20u32, 100, 400, 2000])));
     s.io.deliver = pick(&mut rng, &["all", "rand", "byte"]).to_string();
+    s
+}
+
+// ---------------------------------------------------------------------------
+// C17: the peer's error surfaces intact. Real client, scripted server: the response arrives complete (END_STREAM),
+// then the peer resets the stream (code X) while the request body is still open; only then the application resets the
+// stream itself (code Y) and asks poll_reset / reads the response. X must be what it sees, never Y.
+pub fn rst_race_bc(seed: u64) -> Scenario {
+    let mut rng = StdRng::seed_from_u64(seed ^ 0x257_ACE);
+    let mut s = Scenario::default();
+    s.name = format!("rstRaceBc-{}", seed);
+    s.mode = "Bc".into();
+    s.sched.seed = seed;
+    s.aims = vec!["C17".into()];
+    s.peer_cfg.settings = vec![(4, 1 << 20)];
+    s.peer_cfg.ack_settings = true;
+    s.peer_cfg.ack_ping = true;
+    s.peer_cfg.grant = "all".into();
+    s.peer_cfg.respond = false;
+    let nreq = rng.gen_range(1..4u32);
+    let mut steps = vec![PeerStep::WaitQ];
+    for i in 0..nreq {
+        let sid = 1 + 2 * i;
+        let x = pick(&mut rng, &[0u32, 2, 5, 7, 8, 11, 0xdead_beef]);
+        let y = pick(&mut rng, &[8u32, 2, 0x7fff_ffff]);
+        let mut r = ReqProg::default();
+        r.tag = i + 1;
+        r.method = "POST".into();
+        r.ready = true;
+        r.eos = false;
+        r.ops = vec![SendOp::Data { n: pick(&mut rng, &[0usize, 10, 3000]), eos: false }, SendOp::WaitQ { k: 3 }, SendOp::Reset { code: y }, SendOp::PollReset, SendOp::WaitQ { k: 5 }];
+        r.read = if rng.gen_bool(0.5) { ReadPol { start_q: Some(4), ..ReadPol::default() } } else { ReadPol::default() };
+        s.reqs.push(r);
+        // the complete response first, then the reset
+        let es_on_headers = rng.gen_bool(0.3);
+        steps.push(PeerStep::Headers { sid, hid: 0, fields: vec![], eos: es_on_headers, frag: 0, huff: false, status: 200, req: false, method: String::new(), tag: 0 });
+        if !es_on_headers {
+            steps.push(PeerStep::Data { sid, n: pick(&mut rng, &[0usize, 5, 2000]), eos: true, pad: None });
+        }
+        if rng.gen_bool(0.85) {
+            steps.push(PeerStep::Rst { sid, code: x });
+        }
+    }
+    for _ in 0..6 {
+        steps.push(PeerStep::WaitQ);
+    }
+    s.peer = steps;
+    s.drop_sr_when_done = true;
     s
 }
